@@ -31,3 +31,4 @@ import LyModel.Props.C10Yin
 #print axioms LyModel.Props.C10Yin.yin_stmt_roundtrip_fails_prefixed_kw
 #print axioms LyModel.Props.C10Yin.yin_ext_roundtrip
 #print axioms LyModel.Props.C10Yin.yin_stmt_roundtrip_errmsg_value_fixed
+#print axioms LyModel.Props.C10Yin.yin_printer_respects_cardinality
